@@ -60,6 +60,14 @@ func Run(r *common.Run) error {
 			if len(f) > 0 && f[0] == "C04" {
 				f = f[1:]
 			}
+			if len(f) == 4 && f[0] == "comp" {
+				codes := []string{}
+				if f[2] != "-" {
+					codes = strings.Split(f[2], ",")
+				}
+				doComp(e, codes, f[3], "replay")
+				continue
+			}
 			if len(f) > 0 && f[0] == "hs" {
 				if err := replayHS(r, f); err != nil {
 					return err
@@ -147,6 +155,7 @@ func Run(r *common.Run) error {
 	}
 	r.Exhaustive = append(r.Exhaustive, "every read/write index (single and permanent failure), every end of input, every failing callback, every cancellation instant and every operation blocking with cancellation while blocked, of 10 instrumented standard handshakes (STARTTLS+auth+voluntary+bind; both roles; TCP/WebSocket; c2s/s2s; pre-secured)")
 	runReal(r)
+	runComponent(e)
 	n := r.Pick(3000, 40000)
 	for i := 0; i < n; i++ {
 		cs := c01.RandomCase(r.Rnd, true)
